@@ -73,6 +73,7 @@ structure RGChild where
   guid : Nat
   start : Int
   stop : Int
+  strand : Strand
   same : Bool            -- `to_dict()` equals the source member's `to_dict()`
   mseq : MSeq
   deriving DecidableEq, Repr, Inhabited
@@ -157,29 +158,75 @@ def specBounds (src : Source) : Option (Int × Int) :=
     | .chunk cs seq => some (cs, cs + seq.length)
     | _ => hullOf (src.children.map fun c => (c.start, c.stop))
 
+/-- sources the constructors accept: explicit bounds form a valid interval (`SingleInterval(start, end)`), and on a
+    whole chromosome they lie on the sequence (`reset_parent` checks `end ≤ len`).  Everything else is outside the
+    quantifier: the collection cannot be built. -/
+def constructible (src : Source) : Bool :=
+  match src.bounds with
+  | some (bs, be) =>
+      decide (0 ≤ bs ∧ bs ≤ be) &&
+      (match src.par with
+       | .whole seq => decide (be ≤ seq.length)
+       | _ => true)
+  | none => true
+
 def Par.hasSeq : Par → Bool
   | .whole _ | .chunk _ _ => true
   | _ => false
 
-/-- The parent the result must carry for new bounds `[start, stop)`: the source's sequence restricted to them. -/
-def expectPar (par : Par) (start stop : Int) : RPar :=
-  match par with
+/-- the source's own parent as a result parent (members of the source sit on it) -/
+def Par.toRPar : Par → RPar
   | .none => .none
   | .noseq => .noseq
-  | .whole seq =>
-      let a := max start 0; let b := min stop seq.length
-      .chunk a b (stretch 0 seq a b)
-  | .chunk cs seq =>
-      let a := max start cs; let b := min stop (cs + seq.length)
-      .chunk a b (stretch cs seq a b)
+  | .whole seq => .whole seq
+  | .chunk cs seq => .chunk cs (cs + seq.length) seq
+
+/-- chromosome position of the first base of the parent's sequence, and the sequence -/
+def Par.seqAt : Par → Option (Int × List Char)
+  | .whole seq => Option.some (0, seq)
+  | .chunk cs seq => Option.some (cs, seq)
+  | _ => Option.none
+
+/-- The stretch of chromosome on which the COLLECTION has sequence: its bounds cut to the range of the parent's
+    sequence (`none`: no sequence, or bounds and sequence chunk do not overlap).  With bounds taken from the parent
+    this is the parent's whole range. -/
+def locRange (src : Source) : Option (Int × Int) :=
+  match specBounds src, src.par.seqAt with
+  | some (bs, be), some (lo, seq) =>
+      let a := max bs lo; let b := min be (lo + seq.length)
+      -- a whole chromosome holds its collection entirely (the constructor refuses anything else); a chunk may be
+      -- missed by the bounds
+      match src.par with
+      | .chunk _ _ => if a < b then some (a, b) else none
+      | _ => some (a, b)
+  | _, _ => none
+
+/-- The parent the result must carry for new bounds `[start, stop)`: the source's sequence restricted to them
+    (to the part of them on which the collection has sequence).  A collection asked for its own bounds keeps its
+    parent ("we are not actually subsetting at all"); a zero-length result carries no sequence. -/
+def expectPar (src : Source) (start stop : Int) : RPar :=
+  match src.par with
+  | .none => .none
+  | .noseq => .noseq
+  | par =>
+    match locRange src, par.seqAt with
+    | some (A, B), some (lo, seq) =>
+        if stop ≤ start then .none
+        else if specBounds src = some (start, stop) then par.toRPar
+        else
+          let a := max start A; let b := min stop B
+          .chunk a b (stretch lo seq a b)
+    | _, _ => .none
 
 /-- a whole-chromosome parent and the chunk `[0,len)` carry the same sequence at the same coordinates; a
-    sequence-less parent and no parent both carry no sequence (the property speaks about sequences only: a
-    zero-length result drops a sequence-less parent, `_subset_parent`'s `start == end` case — not demanded otherwise) -/
+    sequence-less parent, no parent and an empty chunk all carry no sequence (the property speaks about sequences
+    only: a zero-length result drops a sequence-less parent, `_subset_parent`'s `start == end` case — not demanded
+    otherwise) -/
 def RPar.norm : RPar → RPar
-  | .whole seq => .chunk 0 seq.length seq
+  | .whole seq => if seq.isEmpty then .none else .chunk 0 seq.length seq
   | .noseq => .none
-  | p => p
+  | .chunk a b seq => if seq.isEmpty then .none else .chunk a b seq
+  | .none => .none
 
 /-- the member's own (spliced) sequence on a result parent: the bases of member ∩ parent range, oriented -/
 def expectMSeq (rp : RPar) (g : GChild) : MSeq :=
@@ -196,13 +243,13 @@ def MSeq.norm : MSeq → MSeq
 
 /-! ### expected result for a list of kept (possibly reduced) children -/
 
-def expectGChild (rp : RPar) (g : GChild) : RGChild := ⟨g.guid, g.start, g.stop, true, expectMSeq rp g⟩
+def expectGChild (rp : RPar) (g : GChild) : RGChild := ⟨g.guid, g.start, g.stop, g.strand, true, expectMSeq rp g⟩
 
 def expectChild (rp : RPar) (c : Child) : RChild :=
   ⟨c.guid, c.kind, c.start, c.stop, c.idents, c.gcs.map (expectGChild rp)⟩
 
 def expectResult (src : Source) (start stop : Int) (kept : List Child) : Result :=
-  let rp := expectPar src.par start stop
+  let rp := expectPar src start stop
   ⟨start, stop, kept.map (expectChild rp), rp⟩
 
 /-! ### normal forms (results are compared as SETS of members) -/
@@ -287,7 +334,11 @@ def expectQueryByPosition (src : Source) (q : PosQ) : Expect :=
       else
         let kept := specFilter src.children q.codingOnly q.cw s e
         let (ns, ne) := resultBounds q s e kept
-        if src.par.hasSeq ∧ (ns < bs ∨ be < ne) then .reject
+        -- "the new expanded range would exceed the range of an associated sequence chunk": the expansion moved
+        -- a bound, and the moved range leaves the stretch on which the collection has sequence
+        if (match locRange src with
+            | some (A, B) => decide ((ns < s ∨ e < ne) ∧ (ns < A ∨ B < ne))
+            | none => false) = true then .reject
         else .result (expectResult src ns ne kept)
 
 def okQueryByPosition (src : Source) (q : PosQ) (ans : Ans) : Bool := meets (expectQueryByPosition src q) ans
@@ -337,13 +388,6 @@ def okQueryByIntervalGuids (src : Source) (kinds : List Kind) (ids : List Nat) (
   okIdResult src (keptByIntervalGuids src kinds ids) ans
 def okQueryByIdentifiers (src : Source) (ids : List (List Char)) (ans : Ans) : Bool :=
   okIdResult src (keptByIdentifiers src ids) ans
-
-/-- the source's own parent as a result parent (members of the source sit on it) -/
-def Par.toRPar : Par → RPar
-  | .none => .none
-  | .noseq => .noseq
-  | .whole seq => .whole seq
-  | .chunk cs seq => .chunk cs (cs + seq.length) seq
 
 /-- `child.query_by_guids(ids)`: `None` iff no grandchild is requested, else the child reduced to the requested
     grandchildren, which stay on the source's parent -/
